@@ -45,13 +45,6 @@ import (
 
 const watchdog = 20 * time.Second
 
-// httpIntoForwarder lets HTTP senders feed a chain that ends in the forwarder. On the current tree
-// HttpForwarderHandlerV2.DispatchEvent posts with the context it is given; for an event that arrived on
-// /v2/event that is the HTTP request's context, cancelled as soon as the ingestion handler has answered,
-// so the upstream POST is aborted and the event is lost (sig not-handed-when-wait-returned:forwarder:http:*,
-// reported to the maintainers of the harness). Set to true once that is repaired or listed as known.
-const httpIntoForwarder = false
-
 // ---------------------------------------------------------------------------------------------
 // configuration of one execution (a function of the configuration index and VERIF_SEED only)
 
@@ -119,12 +112,12 @@ func makeConfig(i int, rng *rand.Rand) *config {
 	nSend := 2 + rng.Intn(5)
 	for k := 0; k < nSend; k++ {
 		sp := senderPlan{Via: "udp", Src: rng.Intn(nSrc), N: 10 + rng.Intn(40)}
-		if rng.Intn(3) == 0 && (c.Mode != "forwarder" || httpIntoForwarder) {
+		if rng.Intn(3) == 0 {
 			sp.Via = "http"
 		}
 		c.Senders = append(c.Senders, sp)
 	}
-	if rng.Intn(5) == 0 && (c.Mode != "forwarder" || httpIntoForwarder) {
+	if rng.Intn(5) == 0 {
 		// an HTTP client that leaves the hostname empty: the unknown source
 		c.Sources = append(c.Sources, &srcPlan{Addr: "", Mode: "unknown"})
 		c.Senders = append(c.Senders, senderPlan{Via: "http", Src: len(c.Sources) - 1, N: 5 + rng.Intn(10)})
